@@ -2,7 +2,7 @@
 //! (`ServerBuilder::to_service_builder().build(methods, stop).call(request)`) with the request body given as
 //! an explicit list of frames, plus a direct call of the public `read_body` on the same headers/frames.
 //!
-//! input line : `<method-hex> <max> <content-types> <content-lengths> <frames>`
+//! input line : `<method-hex> <max> <content-types> <content-lengths> <frames> [H]`   (H: the body reports its exact size as size hint)
 //!              lists are comma separated, `-` is the empty list; a header value is hex (`e` = empty value);
 //!              a frame is `d<hex>` (data frame, `d` = empty data frame) or `t` (trailers frame)
 //! output line: `<status> <read_body> <response-body-hex|-> <handler-log|->`
@@ -26,8 +26,9 @@ enum F {
 	Trailers,
 }
 
-/// A request body that yields exactly the given frames, one per poll.
-struct FrameBody(VecDeque<F>);
+/// A request body that yields exactly the given frames, one per poll.  With `hint` it reports the exact total length of its
+/// data frames as its size hint (what hyper's `Incoming` does for a request with a Content-Length, or a `Full` body).
+struct FrameBody(VecDeque<F>, bool);
 
 impl http_body::Body for FrameBody {
 	type Data = Bytes;
@@ -40,6 +41,15 @@ impl http_body::Body for FrameBody {
 				F::Trailers => Frame::trailers(http::HeaderMap::new()),
 			})
 		}))
+	}
+
+	fn size_hint(&self) -> http_body::SizeHint {
+		if self.1 {
+			let n: usize = self.0.iter().map(|f| if let F::Data(d) = f { d.len() } else { 0 }).sum();
+			http_body::SizeHint::with_exact(n as u64)
+		} else {
+			http_body::SizeHint::default()
+		}
 	}
 }
 
@@ -91,7 +101,8 @@ struct Engine {
 impl Engine {
 	fn handle(&self, line: &str) -> String {
 		let parts: Vec<&str> = line.split_whitespace().collect();
-		if parts.len() != 5 {
+		let hinted = parts.len() == 6 && parts[5] == "H";
+		if parts.len() != 5 && !hinted {
 			return "?bad-line".into();
 		}
 		let Ok(method) = http::Method::from_bytes(&unhex(parts[0])) else { return "?bad-method".into() };
@@ -115,7 +126,7 @@ impl Engine {
 		}
 
 		// (a) the public read_body on the same headers and frames
-		let rb = match self.rt.block_on(read_body(&headers, FrameBody(frames.clone()), max)) {
+		let rb = match self.rt.block_on(read_body(&headers, FrameBody(frames.clone(), hinted), max)) {
 			Ok((b, single)) => format!("ok:{}:{}", if single { 1 } else { 0 }, hex(&b)),
 			Err(HttpError::TooLarge) => "toolarge".into(),
 			Err(HttpError::Malformed) => "malformed".into(),
@@ -126,7 +137,7 @@ impl Engine {
 		let log: Log = Arc::new(Mutex::new(Vec::new()));
 		let cfg = ServerConfig::builder().max_request_body_size(max).build();
 		let mut svc = jsonrpsee_server::Server::builder().set_config(cfg).to_service_builder().build(module(log.clone()), self.stop.clone());
-		let mut req = http::Request::new(FrameBody(frames));
+		let mut req = http::Request::new(FrameBody(frames, hinted));
 		*req.method_mut() = method;
 		*req.uri_mut() = "/".parse().unwrap();
 		*req.headers_mut() = headers;
